@@ -78,9 +78,9 @@ def _detect_crossing(section_coord: str, state_old: np.ndarray, state_new: np.nd
     elif section_coord == "q2":
         good_dir = state_new[n_dof + 1] > 0.0
     elif section_coord == "p3":
-        good_dir = rhs_new[2] > 0.0
+        good_dir = rhs_new[n_dof + 2] > 0.0
     else:  # "p2"
-        good_dir = rhs_new[1] > 0.0
+        good_dir = rhs_new[n_dof + 1] > 0.0
 
     if not good_dir:
         return False, 0.0
